@@ -183,6 +183,7 @@ def methodsOfOp (op : String) : List (String × Bool) :=
   else if op == "del" then [("DeleteObject", false)] else if op == "cp" then [("CopyObject", false)]
   else if op == "app" then [("AppendObject", false)]
   else if op == "mpu" then [("CreateMultipartUpload", false)] else if op == "upp" then [("UploadPart", false)]
+  else if op == "upc" then [("UploadPartCopy", false)]
   else if op == "cmpl" then [("CompleteMultipartUpload", false)] else if op == "abort" then [("AbortMultipartUpload", false)]
   else if op == "gtag" then [("GetObjectTagging", false)] else if op == "ptag" then [("PutObjectTagging", false)]
   else if op == "dtag" then [("DeleteObjectTagging", false)]
